@@ -70,6 +70,7 @@ def run(ctx):
     R5 = rep.rule('C07.R5', 'values change only inside hot_reload unless enhance_hot_reloading(&\'static self) was called; hot_reload waits for its answer', floor=9)
     R6 = rep.rule('C07.R6', 'the closures of AssetReadGuard::map / try_map are higher-ranked over the borrow: the mapped reference cannot escape the guard', floor=2)
     S1 = rep.rule('C08.R2', 'hot_reload waits until *its* answer is there: every raw Condvar::wait sits in the predicate loop of utils::private::Condvar::wait_while, for both lock back ends (shared with C08, wait clauses only)', floor=2)
+    S2 = rep.rule('C08.R4', 'hot_reload waits for the answer to *its own* request: unique tokens, the wait follows a successful send on the token just sent, and the waiter\'s predicate is `slot != Some(my token)` (shared with C08)', floor=4)
     rep.assumptions += ['user code does not hold an AssetReadGuard across hot_reload (documented precondition of the crate)']
     for cfg, F in ctx.cfgs():
         hr = 'hot-reloading' in ctx.cfg_features[cfg]
@@ -78,9 +79,10 @@ def run(ctx):
             r2(R2, cfg, F)
             r3(R3, R4, cfg, F)
             r5(R5, cfg, F)
-            from c08 import r2 as condvar_protocol
+            from c08 import r2 as condvar_protocol, r4 as waits_for_own_answer
             condvar_protocol(S1, cfg, F, only_waits=True)
-            for r in (R2, R3, R4, R5, S1):
+            waits_for_own_answer(S2, cfg, F)
+            for r in (R2, R3, R4, R5, S1, S2):
                 r.finish_cfg(cfg)
         R1.finish_cfg(cfg)
         r6(R6, cfg, F)
